@@ -471,6 +471,125 @@ def perm_jobs():
     return [cases[i::16] for i in range(16)]
 
 
+# ------------------------------------------------------------------ listener lifecycle on names with several addresses
+def _probe_free(addr, port):
+    """can a fresh socket bind (addr, port)?  False while something still listens there"""
+    import socket
+    sk = socket.socket(socket.AF_INET, socket.SOCK_STREAM)
+    try:
+        sk.bind((addr, port))
+        return True
+    except OSError:
+        return False
+    finally:
+        sk.close()
+
+
+def listen_case(kind, naddrs, busy, ending):
+    """A listen request for a host name with 1 or 2 addresses while address #busy (None: none) is
+    already taken by someone else.  A refused request leaves nothing listening; a served one listens on
+    every address and releases all of them when the listener / the SSH connection ends."""
+    import socket
+    pid = os.getpid()
+    base = '127.%d.%d' % (77 + (pid >> 8) % 100, pid & 255)     # private to this worker process: no port races
+    addrs = ['%s.%d' % (base, 1 + i) for i in range(naddrs)]
+    w = World(kind)
+    viol = []
+    blocker = None
+    try:
+        w.pair.handshake()
+        w.pair.server_owner = getattr(w, 'srv_owner', None)
+        w.loop.resolver['multi.example'] = list(addrs)
+        # pick a port free on every address
+        probe = socket.socket(socket.AF_INET, socket.SOCK_STREAM)
+        probe.bind((addrs[0], 0))
+        port = probe.getsockname()[1]
+        probe.close()
+        if busy is not None:
+            blocker = socket.socket(socket.AF_INET, socket.SOCK_STREAM)
+            blocker.bind((addrs[busy], port))
+            blocker.listen(1)
+        c = w.pair.c
+
+        async def go():
+            try:
+                if kind == 'local':
+                    return await c.forward_local_port('multi.example', port, 'b.example', 80)
+                if kind == 'socks':
+                    return await c.forward_socks('multi.example', port)
+                return await c.forward_remote_port('multi.example', port, 'b.example', 80)
+            except (OSError, asyncssh.ChannelListenError) as exc:
+                return exc
+        res = w.run(go())
+        refused = isinstance(res, Exception) or res is None
+        mine = [a for a in w.loop.listeners if isinstance(a, tuple) and a[0] in addrs]
+        if busy is None and refused:
+            viol.append(('free-address-refused', 'listen on %r failed although every address was free: %r' % (addrs, res)))
+        if busy is not None and not refused:
+            viol.append(('listen-succeeded-on-busy-address', 'address %s:%d was taken' % (addrs[busy], port)))
+        if refused:
+            if mine:
+                viol.append(('refused-request-left-listener', 'request refused (%r) but still listening on %r' % (res, mine)))
+            for i, a in enumerate(addrs):
+                if i != busy and not _probe_free(a, port):
+                    viol.append(('refused-request-left-socket', 'request refused but %s:%d is still bound' % (a, port)))
+        else:
+            if sorted(mine) != sorted((a, port) for a in addrs):
+                viol.append(('not-listening-everywhere', 'listening on %r, name resolves to %r' % (mine, addrs)))
+        # end of life
+        if ending == 'listener-close' and not refused:
+            res.close()
+            w.run(res.wait_closed())
+        elif ending == 'conn-close':
+            c.close()
+        elif ending == 'server-close':
+            w.pair.s.close()
+        elif ending == 'cut':
+            w.loop.cut(w.pair.ct)
+        w.loop.flush_all()
+        if blocker is not None:
+            blocker.close()
+            blocker = None
+        left = [a for a in w.loop.listeners if isinstance(a, tuple) and a[0] in addrs]
+        if left:
+            viol.append(('listener-survives-' + ending, 'still listening on %r' % (left,)))
+        for a in addrs:
+            if not _probe_free(a, port):
+                viol.append(('socket-survives-' + ending, '%s:%d is still bound' % (a, port)))
+        if w.loop.unretrieved():
+            viol.append(('loop-exception', repr(w.loop.exc_log[0].get('exception'))[:200]))
+    except Livelock as exc:
+        viol.append(('livelock', str(exc)))
+    finally:
+        if blocker is not None:
+            blocker.close()
+        w.close()
+    return viol
+
+
+def listen_worker(job):
+    acc = core.Acc()
+    for kind, naddrs, busy, ending in job:
+        viol = listen_case(kind, naddrs, busy, ending)
+        acc.add(core.digest(('listen', kind, naddrs, busy, ending)), transitions=2,
+                sample={'listen_request': kind, 'addresses': naddrs, 'busy_address': busy, 'ending': ending}
+                if kind == 'remote' and busy == 1 and ending == 'conn-close' else None)
+        for k, d in viol:
+            acc.violation('forward:%s:%s' % (k, kind), '%s ; addresses=%d busy=%r ending=%s' % (d, naddrs, busy, ending),
+                          {'kind': 'listen', 'case': [kind, naddrs, busy, ending]})
+    return acc
+
+
+def listen_jobs():
+    cases = []
+    for kind in ('local', 'socks', 'remote'):
+        for naddrs in (1, 2, 3):
+            for busy in [None] + list(range(naddrs)):
+                for ending in ('listener-close', 'conn-close', 'server-close', 'cut'):
+                    cases.append((kind, naddrs, busy, ending))
+    return [cases[i::16] for i in range(16)]
+
+
 # ------------------------------------------------------------------ SOCKS grid end to end
 def socks_worker(job):
     acc = core.Acc()
@@ -629,6 +748,8 @@ def main(tier, seed):
     acc.merge(core.pmap(perm_worker, perm_jobs()))
     n_b = acc.evaluations - n_a
     acc.merge(core.pmap(socks_worker, socks_jobs(tier)))
+    n_c = acc.evaluations - n_a - n_b
+    acc.merge(core.pmap(listen_worker, listen_jobs()))
     rule = ('forwarding kinds {local, remote, local path, remote path, SOCKS5, SOCKS4, SOCKS4a} x 9 scripted '
             'conversations (duplex writes incl. 300 bytes, half-close in each order, close by either end, EOF before '
             'any data); at every point the explorer may deliver any pending pipe, run the next application action '
@@ -636,9 +757,11 @@ def main(tier, seed):
             'listener; DFS bound 1 (2 for local forwarding in quick, everything in thorough); permission matrix of 6 '
             'authorized_keys option sets x {no certificate, certificate with / without permit-port-forwarding} x '
             'application answer x 3 destinations for direct-tcpip and tcpip-forward; SOCKS requests: 5 valid forms, '
-            'every truncation, byte-at-a-time delivery and single-byte field variations vs a reference parser')
+            'every truncation, byte-at-a-time delivery and single-byte field variations vs a reference parser; listen '
+            'requests {local, SOCKS, remote} for a name with 1-3 addresses x which address is already taken x how '
+            'the listener ends {closed, either connection closed, connection lost}: nothing left bound')
     return core.finish(PROP, tier, seed, 'model_checking', acc, t0, rule,
-                       {'exploration_execs': n_a, 'permission_cases': n_b, 'socks_cases': acc.evaluations - n_a - n_b},
+                       {'exploration_execs': n_a, 'permission_cases': n_b, 'socks_cases': n_c, 'listen_cases': acc.evaluations - n_a - n_b - n_c},
                        assumptions=['TCP endpoints A and B are virtual transports; listening sockets are real '
                                     '(asyncssh binds them before handing them to the loop)'])
 
@@ -652,6 +775,11 @@ def replay(rep):
     elif r['kind'] == 'perm':
         c = r['case']
         acc = perm_worker([(c[0], c[1], c[2], tuple(c[3]))])
+        v = acc.violations
+        print(json.dumps(v, indent=1, default=repr))
+    elif r['kind'] == 'listen':
+        c = r['case']
+        acc = listen_worker([[(c[0], c[1], c[2], c[3])]])
         v = acc.violations
         print(json.dumps(v, indent=1, default=repr))
     else:
